@@ -4,6 +4,7 @@
 # Distributed under the terms of the Modified BSD License.
 
 from collections import namedtuple
+import copy
 import datetime
 from difflib import unified_diff
 import hashlib
@@ -724,6 +725,8 @@ def pretty_print_notebook(nb, config=DefaultConfig):
 
     if config.language is None:
         language_info = nb.metadata.get('language_info', {})
+        # On a copy: config may be the DefaultConfig shared by all calls
+        config = copy.copy(config)
         config.language = language_info.get(
             'pygments_lexer',
             language_info.get('name', None)
